@@ -317,6 +317,26 @@ def clone_with(tree, victim, how, ctx):
             return []
         return items + [ctx.leaf()]
 
+    def swap_kind(x, kids_or_items):
+        # same children, another container kind of the same family (dict-like <-> dict-like, sequence <-> sequence)
+        if isinstance(x, dict):
+            items = kids_or_items
+            if isinstance(x, defaultdict):
+                return dict(items) if len(items) % 2 else OrderedDict(items)
+            if isinstance(x, OrderedDict):
+                return defaultdict(int, items) if len(items) % 2 else dict(items)
+            return defaultdict(list, items) if len(items) % 2 else OrderedDict(items)
+        kids = kids_or_items
+        if isinstance(x, deque):
+            return list(kids)
+        if isinstance(x, list):
+            return tuple(kids) if len(kids) % 2 else deque(kids)
+        if type(x) is tuple:
+            return list(kids)
+        if hasattr(x, '_fields'):
+            return tuple(kids)
+        return tuple(kids)
+
     def rec(x):
         ch = py_children(x)
         if ch is None:
@@ -326,12 +346,16 @@ def clone_with(tree, victim, how, ctx):
             return type(x)(alter(kids) if x is victim else kids, x.aux)
         if isinstance(x, dict):
             items = [(k, rec(v)) for k, v in x.items()]
+            if x is victim and how == 'kind-swap':
+                return swap_kind(x, items)
             if x is victim:
                 items = alter(items) if how != 'longer' else items + [('extra-key', ctx.leaf())]
             if isinstance(x, defaultdict):
                 return defaultdict(x.default_factory, items)
             return type(x)(items)
         kids = [rec(c) for c in x]
+        if x is victim and how == 'kind-swap':
+            return swap_kind(x, kids)
         if x is victim:
             kids = alter(kids)
         if isinstance(x, deque):
@@ -794,7 +818,7 @@ def run_confusion(job, io):
             if not conts:
                 continue
             victim = conts[tape.draw(len(conts), 'mm-victim')]
-            how = tape.choice(('shorter', 'longer', 'empty', 'much-shorter'), 'mm-how')
+            how = tape.choice(('shorter', 'longer', 'empty', 'much-shorter', 'kind-swap', 'kind-swap'), 'mm-how')
             t2 = clone_with(t1, victim, how, ctx2)
             big = tape.draw(4, 'mm-big') == 3
             if big and isinstance(victim, tuple) and hasattr(victim, '_fields'):
